@@ -1,6 +1,7 @@
 package e1
 
 import (
+	"os"
 	"context"
 	"encoding/json"
 	"fmt"
@@ -100,7 +101,9 @@ type ClientProg struct {
 	Steps    []Step `json:"steps"`
 	Pipeline int    `json:"pipeline"` // max outstanding commands (>=1)
 	Chunked  bool   `json:"chunked,omitempty"`
-	// StartAfter: the client connects only after this many scheduler events.
+	// Late: the connection is only accepted (its handler goroutine started) by
+	// the client's own "connect" step, e.g. after another client hung up.
+	Late       bool `json:"late,omitempty"`
 	WriteYield bool `json:"write_yield,omitempty"`
 	OutLimit   int  `json:"out_limit,omitempty"`
 }
@@ -118,6 +121,10 @@ type Knobs struct {
 	// that the connection handlers really run in parallel (real sync primitives,
 	// -race build); the cooperative scheduler has nothing to schedule then.
 	Burst bool `json:"burst,omitempty"`
+	// ConfigText, when set, is written to a file and read by the server's own
+	// config.Parse over the defaults of config.Setup; Databases/ShardNum above
+	// are then what the simulator expects the parse to yield.
+	ConfigText string `json:"config_text,omitempty"`
 	// Preload is executed sequentially before the clients start (prior keyspace).
 	Preload [][]B `json:"preload,omitempty"`
 }
@@ -329,6 +336,22 @@ func (w *World) run() {
 		k.MaxSteps = 4000
 	}
 	cfg := &config.Config{ShardNum: k.ShardNum, Databases: k.Databases, ChanBufferSize: 10, LogLevel: "panic"}
+	if k.ConfigText != "" {
+		// the defaults of config.Setup, then the file
+		cfg = &config.Config{Host: "127.0.0.1", Port: 6380, LogDir: "./", LogLevel: "info", ShardNum: 1024, ChanBufferSize: 10, Databases: 16, Others: map[string]any{}}
+		f, err := os.CreateTemp("", "verif-conf-*")
+		if err != nil {
+			panic("e1: cannot create the config file: " + err.Error())
+		}
+		f.WriteString(k.ConfigText)
+		f.Close()
+		err = cfg.Parse(f.Name())
+		os.Remove(f.Name())
+		if err != nil {
+			panic("config.Parse rejected a valid configuration file: " + err.Error())
+		}
+		cfg.LogLevel = "panic"
+	}
 	config.Configures = cfg
 	registerCommands()
 	w.vs = vsync.NewWorld()
@@ -361,20 +384,27 @@ func (w *World) run() {
 		c.conn.writeYield = p.WriteYield
 		c.conn.outLimit = p.OutLimit
 		w.cs = append(w.cs, c)
-		go func(i int, c *clientState) {
-			w.vs.Register(c.prog.Name, i)
-			defer func() {
-				if r := recover(); r != nil {
-					w.res.Panics = append(w.res.Panics, fmt.Sprintf("%s: panic: %v", c.prog.Name, r))
-				}
-			}()
-			w.mgr.Handle(w.ctx, c.conn)
-		}(i, c)
+		if !p.Late {
+			w.accept(i, c)
+		}
 	}
 	w.res.Clients = w.cs
 
 	w.loop(k.MaxSteps)
 	w.finish()
+}
+
+// accept starts the server's connection handler for a client.
+func (w *World) accept(i int, c *clientState) {
+	go func() {
+		w.vs.Register(c.prog.Name, i)
+		defer func() {
+			if r := recover(); r != nil {
+				w.res.Panics = append(w.res.Panics, fmt.Sprintf("%s: panic: %v", c.prog.Name, r))
+			}
+		}()
+		w.mgr.Handle(w.ctx, c.conn)
+	}()
 }
 
 type event struct {
@@ -523,6 +553,19 @@ func (w *World) events() []event {
 		case "wait":
 			if len(c.waiting) == 0 {
 				evs = append(evs, event{kind: "wait", client: i})
+			}
+		case "connect":
+			// a late connection; with a Tag, only after the client of that name hung up
+			ok := true
+			if st.Tag != "" {
+				for _, o := range w.cs {
+					if o.prog.Name == st.Tag && !o.closed {
+						ok = false
+					}
+				}
+			}
+			if ok {
+				evs = append(evs, event{kind: "connect", client: i})
 			}
 		case "barrier":
 			// proceeds once every non-auditor client has finished its program
@@ -905,6 +948,12 @@ func (w *World) apply(e event) {
 	case "wait":
 		c := w.cs[e.client]
 		c.next++
+	case "connect":
+		c := w.cs[e.client]
+		c.next++
+		w.trace("c%d connect", e.client)
+		w.res.Faults["late-connection"]++
+		w.accept(e.client, c)
 	}
 }
 
